@@ -17,6 +17,8 @@ def load_known(prop):
 def kf_matches(f, harness_name, p):
     if f.get('harness') and f['harness'] != harness_name:
         return False
+    if 'matches' in f:
+        return any(kf_matches(dict(f, match=m1, matches=None) if False else {'harness': f.get('harness'), 'match': m1}, harness_name, p) for m1 in f['matches'])
     m = f.get('match', {})
     if 'function' in m and m['function'] != p['function']:
         return False
@@ -131,7 +133,8 @@ def main(argv=None):
                 if p['kind'] != 'obligation' or p['status'] == 'SUCCESS':
                     continue
                 if p['status'] not in ('FAILURE',):
-                    undecided.append('%s: obligation %s has status %s' % (h.name, p['id'], p['status']))
+                    if not any(q['kind'] == 'obligation' and q['status'] == 'FAILURE' for q in r['props']):
+                        undecided.append('%s: obligation %s has status %s' % (h.name, p['id'], p['status']))
                     continue
                 mk = [f for f in kfs if kf_matches(f, h.name, p)]
                 if mk:
